@@ -387,6 +387,12 @@ def scenario_bulk(rng, quick, n, mode):
         ops.append({"op": "begin_batch", "skip_sync": rng.random() < 0.7, "no_auto": rng.random() < 0.7, "level": rng.choice([1, 3, 9]),
                     "presize": rng.choice([0, 0, 262144])})
         ops += docs + [{"op": "end_batch"}, {"op": "commit"}]
+    elif mode == "batch+lastbig":
+        # automatic checkpoints stay on inside the batch, and the LAST put is the one that crosses the 75 % line of the log
+        # (a ~25 KB text: parent + chunk records): the commit closing the batch then finds nothing pending
+        ops.append({"op": "begin_batch", "skip_sync": rng.random() < 0.5, "no_auto": False, "level": 3, "presize": 0})
+        ops += docs[:4] + [{"op": "put", "uri": "mv2://q/lastbig", "pay": 900, "cls": "long", "size": 25000, "ts": 77}]
+        ops += [{"op": "end_batch"}, {"op": "commit"}]
     elif mode == "pending+batch":
         # puts still pending in the log when the batch starts and pre-sizes the log beyond its current size
         cut = max(1, n // 3)
@@ -435,7 +441,7 @@ def engine(tier):
     sizes = [6, 14, 30] if quick else [4, 8, 14, 24, 40, 60, 90, 120] * 3
     for n in sizes:
         scs.append({"id": len(scs) + 1, "ops": scenario(rng, quick, n)})
-    for mode in (["plain", "batch", "skip", "skip+commit", "pending+batch", "commit+skip"] if quick else ["plain", "batch", "batch", "batch", "skip", "skip", "skip+commit", "skip+commit", "pending+batch", "commit+skip"] * 2):
+    for mode in (["plain", "batch", "skip", "skip+commit", "pending+batch", "commit+skip", "batch+lastbig"] if quick else ["batch+lastbig"] + ["plain", "batch", "batch", "batch", "skip", "skip", "skip+commit", "skip+commit", "pending+batch", "commit+skip"] * 2):
         scs.append({"id": len(scs) + 1, "ops": scenario_bulk(rng, quick, rng.choice([5, 9]) if quick else rng.choice([5, 12, 30, 60]), mode)})
     wd, paths = eng_core.run_scenarios(scs, "qry", jobs=min(12, len(scs)))
     accepted, events, diags, devs = eng_core.validate(paths, wd, mk_cfg=lambda dbg: eng_core.trace_cfg(dbg, defects=AS_BUILT), jobs=min(10, len(scs)), max_diag=40)
